@@ -52,6 +52,11 @@ var fragPool = []string{
 	`<bpmn:businessRuleTask id="BRd%N"><bpmn:extensionElements><olive:calledDecision decisionId="%T" result="%T"/></bpmn:extensionElements></bpmn:businessRuleTask>`,
 	`<bpmn:serviceTask id="OLz%N"><bpmn:extensionElements><olive:taskDefinition type="" timeout="0s" retries="0" target="%T" metadata="{&quot;k&quot;:0}"/></bpmn:extensionElements></bpmn:serviceTask>`,
 	`<bpmn:serviceTask id="OLn%N"><bpmn:extensionElements><olive:taskDefinition type="t" retries="-1"/></bpmn:extensionElements></bpmn:serviceTask>`,
+	// expression elements without a body (what a modeler leaves behind when a condition is cleared): the element, its id and its kind stay
+	`<bpmn:sequenceFlow id="SFe%N" sourceRef="T_none" targetRef="T_none"><bpmn:conditionExpression xsi:type="bpmn:tFormalExpression" id="CEe%N"/></bpmn:sequenceFlow>`,
+	`<bpmn:sequenceFlow id="SFi%N" sourceRef="T_none" targetRef="T_none"><bpmn:conditionExpression id="CEi%N"></bpmn:conditionExpression></bpmn:sequenceFlow>`,
+	`<bpmn:intermediateCatchEvent id="ICe%N"><bpmn:timerEventDefinition id="ICed%N"><bpmn:timeDuration xsi:type="bpmn:tFormalExpression" id="TDe%N"/></bpmn:timerEventDefinition></bpmn:intermediateCatchEvent>`,
+	`<bpmn:complexGateway id="CGe%N"><bpmn:activationCondition xsi:type="bpmn:tFormalExpression" id="ACe%N">  </bpmn:activationCondition></bpmn:complexGateway>`,
 	// extension lists with completely blank rows between ordinary ones
 	`<bpmn:serviceTask id="OLb%N"><bpmn:extensionElements><olive:taskHeaders><olive:header name="a" value="1"/><olive:header/><olive:header name="b" value="%T"/></olive:taskHeaders><olive:properties><olive:property/><olive:property name="p" value="%T" type="string"/><olive:property name="q" value="2" type="integer"/></olive:properties><olive:results><olive:field name="r" type="integer"/><olive:field/><olive:field name="s" type="string"/></olive:results></bpmn:extensionElements></bpmn:serviceTask>`,
 	`<bpmn:subProcess id="SP%N" triggeredByEvent="false" name="%T"><bpmn:startEvent id="SPs%N"><bpmn:outgoing>SPf%N</bpmn:outgoing></bpmn:startEvent><bpmn:endEvent id="SPe%N"><bpmn:incoming>SPf%N</bpmn:incoming></bpmn:endEvent><bpmn:sequenceFlow id="SPf%N" sourceRef="SPs%N" targetRef="SPe%N"/></bpmn:subProcess>`,
